@@ -166,23 +166,25 @@ def check(ctx):
     ctx.ob("C03.R1", ccm, "the deep copy (not self) is returned",
            rt is not None and is_call(rt, "copy.deepcopy") and rt[2] == (SELF,),
            detail=short(rt or ()))
-    n_priv = 0
-    for ci in interface_classes(repo):
+    for qn in ("liesel.goose.interface.LieselInterface", "liesel.model.goose.GooseModel"):
+        ci = repo.cls(qn)
         init = ci.own_method("__init__")
-        if init is None:
-            continue
-        ri = evaluate(repo, init)
-        for loc, val, node, cond in ri.stores:
-            if loc == ("a", SELF, "_model"):
-                n_priv += 1
-                ok = (val[0] == "call" and val[1][0] == "a"
-                      and val[1][2] == "_copy_computational_model"
-                      and val[1][1] == n("model"))
-                ctx.ob("C03.R1", init, "the interface keeps a private copy "
-                                       "(model._copy_computational_model()), never the "
-                                       "user's model", ok, detail=short(val), node=node,
-                       stmt="stored model " + pretty(val)[:80])
-    ctx.require_min("interfaces holding a Liesel model", n_priv, 2)
+        stores_m = []
+        if init is not None:
+            ri = evaluate(repo, init)
+            stores_m = [(val, node) for loc, val, node, cond in ri.stores
+                        if loc == ("a", SELF, "_model") and not cond]
+        ok = (len(stores_m) == 1 and stores_m[0][0][0] == "call"
+              and stores_m[0][0][1][0] == "a"
+              and stores_m[0][0][1][2] == "_copy_computational_model"
+              and stores_m[0][0][1][1] == n("model"))
+        ctx.ob("C03.R1", init or ci, "the interface takes a private copy of the model AT "
+                                     "CONSTRUCTION (self._model = model._copy_computational_"
+                                     "model()), never keeps the user's model or copies it "
+                                     "lazily", ok,
+               detail=str([short(v) for v, _ in stores_m]) or "no unconditional store to "
+                                                              "self._model in __init__",
+               stmt="stored model " + str([pretty(v)[:80] for v, _ in stores_m]))
     fd = repo.func("liesel.model.goose.finite_discrete_gibbs_kernel")
     rf = evaluate(repo, fd)
     inner = fd.nested("transition_fn")
